@@ -264,7 +264,7 @@ class Judge:
                 c = (use_holds or {}).get(r, 0)
                 if c and conn[c - 1]["kind"] == "future":
                     real = conn[c - 1]["real"]
-                    if not real or conn[real - 1]["state"] != "deployed":
+                    if not real or conn[real - 1]["state"] not in ("deployed", "undeploying", "undeployed"):
                         out.setdefault("useret", {"reqs": []})["reqs"].append({"r": r, "d": d})
             elif k == "uall" and self.alone.get(r):
                 left = [i for i in self.ustart.get(r, []) if conn[i - 1]["uc"] != 1 or conn[i - 1]["state"] != "undeployed"]
@@ -389,8 +389,11 @@ def signature(world, clause, info, post):
             sid = post["gobj"].get(c["name"], 0)
             claims = post["sets"][sid - 1] if sid else []
             failed = [m for m in claims if m in post["cfg"] and m not in post["dmap"]]
+            orphan = any(f["kind"] == "future" and f["real"] == i and _gone(f) for f in post["conn"])
             if c["state"] == "deployed" and c["uc"] == 0 and failed:
                 out.add("undeploy-all:left-deployed:inner-claimed-by-failed-wrapper")
+            elif c["state"] == "deployed" and c["uc"] == 0 and orphan:
+                out.add("undeploy-all:left-deployed:lazy-connector-orphaned-by-undeploy-during-deploy")
             else:
                 out.add("undeploy-all:%s-uc%d" % (c["state"], c["uc"]))
         return sorted(out)
